@@ -674,12 +674,21 @@ class Eval(object):
     return V.join(self._refine(a, cond, True), self._refine(b, cond, False))
 
 
-def equal_mod_finite(a, b, env=None, max_atoms=3):
+def equal_mod_finite(a, b, env=None, max_atoms=3, _budget=None):
   """a == b as functions, decided by normal-form identity after enumerating
-  the values of the finite-valued atoms (sign / comparison) they contain."""
+  the values of the finite-valued atoms (sign / comparison) they contain.
+  Effort is bounded: when the budget runs out the answer is False ("not
+  proven equal")."""
+  if a is b:
+    return True
   d = a - b
   if d.is_zero():
     return True
+  if _budget is None:
+    _budget = [120]
+  _budget[0] -= 1
+  if _budget[0] <= 0:
+    return False
   # reductions bind x: unify reduction atoms whose arguments are equal as
   # functions (decided recursively), then compare what is left
   def reductions(nf):
@@ -692,13 +701,13 @@ def equal_mod_finite(a, b, env=None, max_atoms=3):
       continue
     for ata in ra:
       if ata[1] == atb[1] and ata[2] == atb[2] and max_atoms > 0 and \
-          equal_mod_finite(ata[3][0], atb[3][0], None, max_atoms):
+          equal_mod_finite(ata[3][0], atb[3][0], None, max_atoms, _budget):
         mp[atb] = NF.atom(ata)
         break
   if mp:
     b2 = b.subst(mp, simplify_app)
     if b2 != b:
-      return equal_mod_finite(a, b2, env, max_atoms)
+      return equal_mod_finite(a, b2, env, max_atoms, _budget)
   ev = Eval(env or Env())
   cands = []
   for at in d.atoms():
@@ -719,7 +728,7 @@ def equal_mod_finite(a, b, env=None, max_atoms=3):
       sb = b.subst({at: NF.const(v)}, simplify_app)
     except ZeroDivisionError:
       return False
-    if not equal_mod_finite(sa, sb, env, max_atoms - 1):
+    if not equal_mod_finite(sa, sb, env, max_atoms - 1, _budget):
       return False
   return True
 
